@@ -615,7 +615,15 @@ macro_rules! field_module {
                 }
                 builder.connect(acc, expected);
                 let circuit = builder.build().expect("base circuit builds");
-                let packing = TablePacking::new(1, 1).with_fri_params(0, case.log_blowup as usize);
+                // the longer variant also uses non-default lanes and a non-default Horner pack size
+                // (the verifier circuit has to rebuild the child's ALU AIR from the proof metadata)
+                let packing = if variant >= 2 {
+                    TablePacking::new(1 + (case.seed % 2) as usize, 1 + ((case.seed >> 1) % 3) as usize)
+                        .with_horner_pack_k(3 + ((case.seed >> 3) % 2) as usize)
+                } else {
+                    TablePacking::new(1, 1)
+                }
+                .with_fri_params(0, case.log_blowup as usize);
                 let (airs_degrees, prim, non_prim) = get_airs_and_degrees_with_prep::<Cfg, F, 1>(
                     &circuit,
                     &packing,
